@@ -116,6 +116,7 @@ def run_harness(exe, segments, shards=None, timeout=20, cwd=None):
                     if ev.get("e") == "done":
                         continue
                     if 1 <= ln <= len(owner):
+                        ev["sline"] = ln - owner.index(owner[ln - 1])       # line number inside its own segment (1-based)
                         per[owner[ln - 1]].append(ev); last_seg = owner[ln - 1]
                 finished = any(ev.get("e") == "done" for ev in o["events"])
                 if finished:
